@@ -296,7 +296,7 @@ def paramsL2Ops : String → Option (List String → String)
       | some [x, ayB, maxx] =>
         let ay := fOfBits ayB
         let okEnv := decide (MaxXNear (ratF ay) (maxx : Int))
-        let ok110 := decide (x ≤ 2 ^ 93 - 2 ^ 54 ∨ (110 : Rat) ≤ ratF ay)
+        let ok110 := decide (DefaultAlphaYAtLeast110 x (ratF ay) ∧ (1 : Rat) ≤ ratF ay)
         s!"env={b01 okEnv} ge110={b01 ok110} pass={b01 (decide (x ≤ maxx))}"
       | _ => "ERR:proto"
   | _ => none
